@@ -324,7 +324,7 @@ if obj.matches and next(obj.matches) ~= nil then
 else
     local w = obj.canaryWeight
     if w == -1 then w = 100 end
-    spec.rules = { { to = obj.stableService, percent = 100 - w }, { to = obj.canaryService, percent = w } }
+    spec.canary = { to = obj.canaryService, match = "weight" }
     labels["canary-mode"] = "weight"
     labels["canary-weight"] = tostring(w)
 end
